@@ -76,7 +76,7 @@ class Src:
         return True
 
     def info(self, sig=None, replayer=None, extra=None):
-        d = {'inputs': dict(self.inputs)}
+        d = {'inputs': self.inputs}   # live reference: inputs created later on the path are part of the record too
         if sig:
             d['sig'] = sig
         if replayer:
@@ -113,6 +113,26 @@ def exact_eq(a, b):
     if a.shape != b.shape:
         return False
     terms = [x == y for x, y in zip(a.flat, b.flat)]
+    if any(isinstance(t, SymBool) for t in terms):
+        return core.And(*terms)
+    return all(bool(t) for t in terms)
+
+
+def poly_eq(a, b):
+    """a == b componentwise for polynomial terms, each difference brought to sum-of-monomials normal form by z3's simplifier
+    first (an identity then simplifies to `0 == 0`; nlsat alone does not finish on identities in 20+ variables)"""
+    a = _np.asarray(a, dtype=object)
+    b = _np.asarray(b, dtype=object)
+    if a.shape != b.shape:
+        return False
+    terms = []
+    for x, y in zip(a.flat, b.flat):
+        d = x - y
+        if isinstance(d, Sym):
+            z = z3.simplify(d.z, som=True, hoist_mul=False)
+            terms.append(SymBool(z == 0))
+        else:
+            terms.append(d == 0)
     if any(isinstance(t, SymBool) for t in terms):
         return core.And(*terms)
     return all(bool(t) for t in terms)
